@@ -71,6 +71,8 @@ def check(run, prog, tier):
                       "eigenvector matrix is indexed [site, exciton]", minimum=2)
     rule_I(run, prog, "C12-I", "for uncoupled molecules the widths are then permuted among the molecules and the response is no "
                                "longer the sum of the molecules' responses")
+    rule_I2(run, prog, "C12-I", "for uncoupled molecules the ESA lines get the widths of other molecules and no longer cancel the "
+                                "cross peaks: the response is not the sum of the molecules' responses")
 
 
 def rule_I(run, prog, rid, what):
@@ -113,6 +115,91 @@ def rule_I(run, prog, rid, what):
                                sample={"statement": norm(st)[:80]})
     if n_st < 2:
         raise AnalysisError("diagonalize: only %d width accumulations over sites recognised (2 confirmed)" % n_st)
+
+
+def index_roles(nest):
+    """Roles of the index variables of one loop nest of diagonalize: 'site' (labels a state of the site basis) or 'exc'
+    (labels an eigenstate).  Evidence, iterated to a fixed point:
+      site: x = self.twoex_indx[v, c] (x and v); both indices of a Kronecker delta[a, b] once one of them is a site; the
+            index of a diagonal read self.Wd[a, a] / self.Dr[a, a] / Wd_in[a] (site widths)
+      exc:  the indices of a store into self.Wd[..], Wd_a[..], Dr_a[..], Wd_c[..], Dr_c[..] (transformed widths)
+    Returns ({name: role}, [names with both roles])."""
+    site, exc = set(), set()
+    for x in ast.walk(nest):
+        if isinstance(x, ast.Assign) and isinstance(x.value, ast.Subscript) and norm(x.value.value) == "self.twoex_indx":
+            for t_ in x.targets:
+                if isinstance(t_, ast.Name):
+                    site.add(t_.id)
+            sl = x.value.slice
+            if isinstance(sl, ast.Tuple) and sl.elts and isinstance(sl.elts[0], ast.Name):
+                site.add(sl.elts[0].id)
+        if isinstance(x, ast.Subscript) and isinstance(x.ctx, ast.Load) and norm(x.value) in ("self.Wd", "self.Dr") \
+                and isinstance(x.slice, ast.Tuple) and len(x.slice.elts) == 2 and all(isinstance(e, ast.Name) for e in x.slice.elts) \
+                and x.slice.elts[0].id == x.slice.elts[1].id:
+            site.add(x.slice.elts[0].id)
+        if isinstance(x, ast.Subscript) and isinstance(x.ctx, ast.Load) and norm(x.value) == "Wd_in" and isinstance(x.slice, ast.Name):
+            site.add(x.slice.id)
+        if isinstance(x, (ast.Assign, ast.AugAssign)):
+            tg = x.targets if isinstance(x, ast.Assign) else [x.target]
+            for t_ in tg:
+                if isinstance(t_, ast.Subscript) and norm(t_.value) in ("self.Wd", "self.Dr", "Wd_a", "Dr_a", "Wd_c", "Dr_c"):
+                    els = t_.slice.elts if isinstance(t_.slice, ast.Tuple) else [t_.slice]
+                    for e in els:
+                        if isinstance(e, ast.Name):
+                            exc.add(e.id)
+    changed = True
+    while changed:
+        changed = False
+        for x in ast.walk(nest):
+            if isinstance(x, ast.Subscript) and norm(x.value) == "delta" and isinstance(x.slice, ast.Tuple) and len(x.slice.elts) == 2 \
+                    and all(isinstance(e, ast.Name) for e in x.slice.elts):
+                a, b = [e.id for e in x.slice.elts]
+                if (a in site) != (b in site):
+                    site |= {a, b}
+                    changed = True
+    roles = {v: "site" for v in site}
+    roles.update({v: "exc" for v in exc if v not in site})
+    return roles, sorted(site & exc)
+
+
+def rule_I2(run, prog, rid, what):
+    """The cross terms and the two-exciton widths of diagonalize contain SS twice or more per term, with indices that are
+    not the index of the accumulated site quantity (SS[nn_2x, aa_2x]**2 * SS[k_1x, alpha]**2).  Index-role inference per
+    loop nest: every SS[i, j] has a site-basis label in the first place and an eigenstate label in the second.  For a
+    dimer the squared 2x2 block is symmetric and the exchange does not show; for three or more molecules whose order of
+    energies is a cyclic shift the ESA line widths belong to the wrong molecule."""
+    f = prog.func("quantarhei.builders.aggregate_base.AggregateBase.diagonalize")
+    from ..loader import parents_map
+    pm = parents_map(f.node)
+    nests = [x for x in walk_no_nested(f.node) if isinstance(x, ast.For)
+             and not any(isinstance(a, ast.For) for a in _ancestors(pm, x))]
+    n = 0
+    for nest in nests:
+        roles, both = index_roles(nest)
+        for x in ast.walk(nest):
+            if isinstance(x, ast.Subscript) and norm(x.value) == "SS" and isinstance(x.slice, ast.Tuple) and len(x.slice.elts) == 2 \
+                    and all(isinstance(e, ast.Name) for e in x.slice.elts):
+                i, j = [e.id for e in x.slice.elts]
+                ri, rj = roles.get(i), roles.get(j)
+                if ri is None and rj is None:
+                    continue
+                n += 1
+                ok = ri != "exc" and rj != "site" and i not in both and j not in both
+                run.obligation(rid, "AggregateBase.diagonalize", ok, key="roles:%s@%d" % (norm(x), n),
+                               message="diagonalize reads %s where %s labels %s and %s labels %s: SS = eigh(HH)[1] is indexed "
+                                       "[site, exciton], the element read is the transposed one - %s"
+                                       % (norm(x), i, {"site": "a site-basis state", "exc": "an eigenstate", None: "?"}[ri],
+                                          j, {"site": "a site-basis state", "exc": "an eigenstate", None: "?"}[rj], what),
+                               loc=f.loc(x), sample={"element": norm(x), "roles": [ri, rj]})
+    if n < 6:
+        raise AnalysisError("diagonalize: only %d eigenvector elements with inferred index roles (6 confirmed)" % n)
+
+
+def _ancestors(pm, x):
+    p_ = pm.get(x)
+    while p_ is not None:
+        yield p_
+        p_ = pm.get(p_)
 
 
 def rule_G(run, prog):
